@@ -275,12 +275,12 @@ Proof.
   destruct (kids s'); split; intros [H1 H2]; split; auto; discriminate.
 Qed.
 
-Theorem consecutive_correct t p1 p2 :
+Theorem consecutive_fixed_correct t p1 p2 :
   shape_ok t = true -> valid t p1 -> valid t p2 ->
-  (exists b, consecutive t p1 p2 = Ok b) /\
-  (consecutive t p1 p2 = Ok true <-> consecutive_spec t p1 p2).
+  (exists b, consecutive_fixed t p1 p2 = Ok b) /\
+  (consecutive_fixed t p1 p2 = Ok true <-> consecutive_spec t p1 p2).
 Proof.
-  intros Hshape Hv1 Hv2. unfold consecutive, consecutive_spec.
+  intros Hshape Hv1 Hv2. unfold consecutive_fixed, consecutive_gen, consecutive_spec.
   destruct (path_eqb p1 p2) eqn:Eeq; simpl.
   { apply path_eqb_eq in Eeq. subst p2. split; [eexists; reflexivity|]. split; [discriminate|].
     intros [H _]. exfalso. eapply doc_lt_irrefl; eauto. }
@@ -307,6 +307,25 @@ Proof.
     rewrite !andb_true_iff, !before_spec in Hcond. destruct Hcond as [[_ Hb1] Hb2].
     apply in_py_leaves in Hin as [Hq Hleaf].
     apply (Hno (lcp p1 p2 ++ q) s); [rewrite subtree_app, Hc; assumption | assumption | auto].
+Qed.
+
+(* the code as it is agrees with the repaired form (hence with the spec) whenever the
+   two paths have no common prefix other than the root: K_cons_rel p1 p2 = false *)
+Lemma consecutive_rel_eq_fixed t p1 p2 :
+  K_cons_rel p1 p2 = false -> consecutive t p1 p2 = consecutive_fixed t p1 p2.
+Proof.
+  unfold K_cons_rel, consecutive, consecutive_fixed, consecutive_gen. intro H.
+  destruct (lcp p1 p2) eqn:E; [reflexivity | discriminate].
+Qed.
+
+Theorem consecutive_partial t p1 p2 :
+  K_cons_rel p1 p2 = false ->
+  shape_ok t = true -> valid t p1 -> valid t p2 ->
+  (exists b, consecutive t p1 p2 = Ok b) /\
+  (consecutive t p1 p2 = Ok true <-> consecutive_spec t p1 p2).
+Proof.
+  intros HK Hs H1 H2. rewrite (consecutive_rel_eq_fixed t p1 p2 HK).
+  apply consecutive_fixed_correct; assumption.
 Qed.
 
 (* ------------------------------------------------------------------ *)
@@ -422,8 +441,24 @@ Definition ex_tree : tree :=
 Example ex_tree_hyps :
   shape_ok ex_tree = true /\ valid ex_tree [1;1;0] /\ valid ex_tree [1] /\
   is_nth ex_tree 2 [1;1] [] = Ok true /\ is_nth ex_tree 1 [1;1] [] = Ok false /\
-  consecutive ex_tree [1;0] [1;1;0] = Ok true /\ consecutive ex_tree [1;0] [1;2] = Ok false /\
+  consecutive_fixed ex_tree [1;0] [1;1;0] = Ok true /\ consecutive_fixed ex_tree [1;0] [1;2] = Ok false /\
+  consecutive ex_tree [0;0] [1;0] = Ok true /\ K_cons_rel [0;0] [1;0] = false /\
   level_check ex_tree EQ [60;97;62]%N [1;0] [1;2] = true /\
   level_check ex_tree EQ [60;97;62]%N [1;0] [1;1;0] = false /\
   is_after [1;0] [1] = false.
 Proof. repeat split; try reflexivity; unfold valid; simpl; discriminate. Qed.
+
+(* the full statement is false of the code as it is: x, y, z siblings below a non-root node *)
+Definition cons_witness : tree :=
+  Node [60;114;62]%N 0 false
+    [ Node [60;97;62]%N 1 false [Node [112]%N 2 false []];
+      Node [60;98;62]%N 3 false [Node [120]%N 4 false []; Node [121]%N 5 false []; Node [122]%N 6 false []] ].
+
+Lemma consecutive_refuted :
+  exists t p1 p2, shape_ok t = true /\ valid t p1 /\ valid t p2 /\ K_cons_rel p1 p2 = true /\
+                  consecutive t p1 p2 = Ok true /\ ~ consecutive_spec t p1 p2.
+Proof.
+  exists cons_witness, [1;0], [1;2]. repeat split; try reflexivity; try (unfold valid; simpl; discriminate).
+  intros [_ H]. apply (H [1;1] (Node [121]%N 5 false [])); try reflexivity.
+  split; apply doc_ltb_spec; reflexivity.
+Qed.
